@@ -566,3 +566,12 @@ func Sign(pk [32]byte, msg [32]byte) (sig [64]byte) {
 }
 
 func Sha256(pre [32]byte) [32]byte { return sha256.Sum256(pre[:]) }
+
+func GenuineID(name string) [32]byte {
+	seed := get(name, 64).Uint64()
+	var b [8]byte
+	for i := range b {
+		b[i] = byte(seed >> (8 * i))
+	}
+	return sha256.Sum256(append([]byte("genuine-id:"), b[:]...))
+}
